@@ -11,3 +11,22 @@ pub fn any_below(n: u8) -> u8
     kani::assume(x < n);
     x
 }
+
+// ---- TypeId made cheap for CBMC (`-Z stubbing`) -------------------------------------------------------------
+// `TypeId` is an array of pointers whose `==` transmutes both sides to `u128`; on values loaded from the heap
+// that pointer->integer conversion is very expensive for CBMC.  Under the stubs a `TypeId` holds the address of a
+// per-type function and `==` compares that address as a pointer.  Contract kept: `of::<T>() == of::<U>()` iff `T`
+// and `U` are the same type.
+pub fn tid_marker<T: 'static + ?Sized>() -> &'static str { core::any::type_name::<T>() }
+pub fn stub_typeid_of<T: 'static + ?Sized>() -> core::any::TypeId
+{
+    let data: [*const (); 2] = [tid_marker::<T> as *const (), core::ptr::null()];
+    unsafe { core::mem::transmute::<[*const (); 2], core::any::TypeId>(data) }
+}
+pub fn stub_typeid_eq(a: &core::any::TypeId, b: &core::any::TypeId) -> bool
+{
+    let pa = a as *const core::any::TypeId as *const *const ();
+    let pb = b as *const core::any::TypeId as *const *const ();
+    unsafe { *pa == *pb }
+}
+pub use core::cmp::PartialEq as PEq;
